@@ -51,10 +51,11 @@ class RefVec:
         self.n = n
         self.agents = self.envs[0].possible_agents
 
-    def reset(self, seed: Optional[int]):
+    def reset(self, seed):
         out = []
         for i, e in enumerate(self.envs):
-            out.append(e.reset(seed=None if seed is None else seed + i))
+            s = None if seed is None else (seed[i] if isinstance(seed, (list, tuple)) else seed + i)
+            out.append(e.reset(seed=s))
         return out
 
     def step(self, actions: Dict[str, np.ndarray]):
@@ -118,10 +119,22 @@ def gen_c12(rng: random.Random, tier: str) -> Dict[str, Any]:
     spec = _gen_spec(rng)
     spec["leave"] = spec["n_agents"] > 1 and rng.random() < 0.2
     n = rng.choice([1, 2, 3, 4, 5])
-    ops = [{"op": "reset", "seed": rng.choice([None, rng.randrange(1000)])}]
+
+    def a_seed():
+        # None, boundary value 0, ordinary integers, and explicit per-environment lists (which may contain 0 and repeats)
+        x = rng.random()
+        if x < 0.25:
+            return None
+        if x < 0.4:
+            return 0
+        if x < 0.75:
+            return rng.randrange(1000)
+        return [rng.choice([0, 0, 1, rng.randrange(1000)]) for _ in range(n)]
+
+    ops = [{"op": "reset", "seed": a_seed()}]
     for _ in range(rng.randint(3, 14 if tier == "quick" else 40)):
         if rng.random() < 0.08:
-            ops.append({"op": "reset", "seed": rng.choice([None, rng.randrange(1000)])})
+            ops.append({"op": "reset", "seed": a_seed()})
         else:
             ops.append({"op": "step", "seed": rng.getrandbits(31)})
     delays = []
@@ -462,8 +475,9 @@ def _run_wrapper(ctx, case, loc) -> None:
     for oi, op in enumerate(case["ops"]):
         ctx.op_index = oi
         if op["op"] == "reset":
-            obs, info = env.reset(seed=op["seed"])
-            (o, inf), = ref.reset(op["seed"])
+            sd = op["seed"][0] if isinstance(op["seed"], list) else op["seed"]  # a single environment takes a single seed
+            obs, info = env.reset(seed=sd)
+            (o, inf), = ref.reset(sd)
             if any(not _same_obs(obs[a], o[a]) for a in o):
                 ctx.report("C12/obs:reset", "wrapper reset observation differs from the wrapped environment's", **loc)
         else:
